@@ -28,12 +28,24 @@ def register(prop):
          "re-compared after every later operation; non-trivial = >=3 ops; distinct = distinct op sequences",
          assumptions=["a decryption counts only if its key stays installed for its whole duration (RemoveKey of such a key is skipped by the executor)"])
 
+    prop("C01", [dict(scn="C01", quick=20000, thorough=1500000, wall_quick=100, wall_thorough=1500)],
+         "bench mode: one real node, prior view of member x built from real claims (absent/alive/suspect/dead/left x incarnation in {0,1,2,5,2^31,2^32-3} x address x age vs "
+         "DeadNodeReclaimTime), then 1-12 claims (alive/suspect/dead/leave/push-pull entries in all four states; incarnation base-2..base+2; same/other address/port; "
+         "meta; valid/short/invalid version vectors; senders incl. the observer and x) delivered by direct call, UDP packet, inside a compound, compressed(+CRC) through the "
+         "real ingest pipeline; exact per-claim oracle (stale => record, Members(), events, queued broadcast, timer all bit-identical); non-trivial = the sequence contained "
+         "both a stale and a non-stale claim; distinct = distinct (prior, claim sequence) tuples",
+         assumptions=["claims about the observer itself are C02's subject and not generated here"])
+
 NOT_CLAIMED = {}
 
 SIM_NOTE = ("trusted base: Go runtime + testing/synctest fake clock, the harness (scheduler, SimNet, oracles) under /verif/sim; "
             "assumes the guarded yield sites are the relevant preemption points; seeded search, not proof")
 
 META = {
+ "C01": dict(
+    level_text="Seeded sequences of membership claims against one real node with an exact per-claim reference (SWIM precedence + permitted reclaim), through direct calls and the real packet ingest pipeline, in virtual time so record age vs reclaim/suspicion timers is exact; the same rank-monotonicity invariant runs as a monitor at every scheduler step of the cluster scenarios (C03/C04/C05). Exploration over thousands of (prior x claim) combinations that the 25 hand-picked unit tests do not reach.",
+    design_ref="DESIGN.md §3 C01", level_note=SIM_NOTE,
+    technique="deterministic simulation (bench mode): seeded claim sequences vs executable SWIM-precedence reference model; cluster-wide rank-monotonicity monitor"),
  "C17": dict(
     level_text="Keyring operation histories vs a sequential reference model plus scheduler-controlled interleaving of ring mutations with a decryption parked between two keys (the aliasing window), and (cluster part) rotation phases in PRNG node order with probe traffic between every pair at each intermediate step. Exploration fits: the failure needs a particular operation order / interleaving, not a particular value.",
     design_ref="DESIGN.md §3 C17", level_note=SIM_NOTE,
